@@ -124,5 +124,77 @@ func extractIdlPackage(out string) {
 	l.strList("structSignatureFlow", flowTokens(mustFunc(ft, "meta/signature/type.go", "*StructType", "Signature"), "s", []string{"Members", "Name"}, []string{"Signature", "Join"}))
 	fif := load("meta/idl/interface.go")
 	l.strList("interfaceSignatureFlow", flowTokens(mustFunc(fif, "meta/idl/interface.go", "*InterfaceType", "Signature"), "s", nil, nil))
+	// the type set: how the structs of the meta-objects get to their blocks
+	calls := []string{"RegisterTo", "ResolveCollision", "Search", "Signature", "Sprintf", "Fprintf", "Parse", "ParamIDL", "SignatureIDL",
+		"CleanVarName", "NewTupleType", "NewRefType", "NewTypeSet", "NewScope", "ForEachMethodAndSignal", "generateMethod", "generateSignal",
+		"generateProperty", "generateStructure", "generateStructures", "ValidName"}
+	l.strList("resolveCollisionFlow", flowTokens(mustFunc(ft, "meta/signature/type.go", "*TypeSet", "ResolveCollision"), "s", []string{"Names", "Types"}, calls))
+	var loops []string
+	ast.Inspect(mustFunc(ft, "meta/signature/type.go", "*TypeSet", "ResolveCollision").Body, func(n ast.Node) bool {
+		if fs, ok := n.(*ast.ForStmt); ok {
+			loops = append(loops, "for "+src(fs.Init)+"; "+src(fs.Cond)+"; "+src(fs.Post))
+		}
+		if as, ok := n.(*ast.AssignStmt); ok && len(as.Lhs) == 1 && src(as.Lhs[0]) == "name" {
+			loops = append(loops, src(as))
+		}
+		return true
+	})
+	l.strList("resolveCollisionLoop", loops)
+	l.strList("typeSetSearchFlow", flowTokens(mustFunc(ft, "meta/signature/type.go", "*TypeSet", "Search"), "s", []string{"Names", "Types"}, calls))
+	for _, rc := range [][2]string{{"*ListType", "l"}, {"*MapType", "m"}, {"*TupleType", "t"}, {"*StructType", "s"}} {
+		l.strList("registerTo"+strings.TrimPrefix(rc[0], "*")+"Flow",
+			flowTokens(mustFunc(ft, "meta/signature/type.go", rc[0], "RegisterTo"), rc[1], []string{"Members", "Name", "value", "key"}, calls))
+	}
+	for _, fn := range []string{"generateMethod", "generateProperty", "generateSignal", "generateStructures", "GenerateIDL"} {
+		l.strList(lowerFirst(fn)+"Flow", flowTokens(mustFunc(fi, "meta/idl/idl.go", "", fn), "set", []string{"Types", "Names"}, calls))
+	}
+	fnm := load("meta/signature/name.go")
+	l.strList("cleanVarNameFlow", flowTokens(mustFunc(fnm, "meta/signature/name.go", "", "CleanVarName"), "", nil, calls))
+	var kws []string
+	for _, d := range fnm.Decls {
+		gd, ok := d.(*ast.GenDecl)
+		if !ok {
+			continue
+		}
+		for _, sp := range gd.Specs {
+			vs, ok := sp.(*ast.ValueSpec)
+			if !ok || len(vs.Names) != 1 || vs.Names[0].Name != "keywords" || len(vs.Values) != 1 {
+				continue
+			}
+			if cl, ok := vs.Values[0].(*ast.CompositeLit); ok {
+				for _, e := range cl.Elts {
+					if s, ok := strLit(e); ok {
+						kws = append(kws, bytesLit(s))
+					}
+				}
+			}
+		}
+	}
+	l.raw("def goKeywordBytes : List (List UInt8) :=\n  [" + strings.Join(kws, ",\n   ") + "]")
+	var vn []string
+	ast.Inspect(mustFunc(fnm, "meta/signature/name.go", "", "ValidName").Body, func(n ast.Node) bool {
+		if ce, ok := n.(*ast.CallExpr); ok {
+			for _, a := range ce.Args {
+				if s, ok := strLit(a); ok {
+					vn = append(vn, s)
+				}
+			}
+		}
+		return true
+	})
+	l.strList("validNameLiterals", vn)
+	var tsf []string
+	for _, fd := range []*ast.FuncDecl{mustFunc(ft, "meta/signature/type.go", "*TypeSet", "ResolveCollision"), mustFunc(ft, "meta/signature/type.go", "", "NewTupleType"),
+		mustFunc(fi, "meta/idl/idl.go", "", "generateProperty"), mustFunc(fnm, "meta/signature/name.go", "", "CleanVarName")} {
+		ast.Inspect(fd.Body, func(n ast.Node) bool {
+			if bl, ok := n.(*ast.BasicLit); ok {
+				if s, ok := strLit(bl); ok {
+					tsf = append(tsf, fd.Name.Name+": "+s)
+				}
+			}
+			return true
+		})
+	}
+	l.strList("typeSetLiterals", tsf)
 	l.write(out, "IdlPackage.lean")
 }
